@@ -30,8 +30,10 @@ Definition housekeeping (x : titem) : Prop :=
   match x with TEv EvPoll | TEv EvUnresponsive => True | TEv _ => False | _ => True end.
 
 Ltac ext_inst L ok0 :=
-  eapply L with (P := ext_by ok0) (ok_item := ok0);
+  first [eapply L with (P := ext_by ok0) (ok_item := ok0) | eapply L with (P := ext_by ok0)];
   try exact (ext_refl ok0); try exact (ext_trans ok0);
+  try (intros; apply write_from_emit with (ok_item := ok0); try exact (ext_refl ok0); try exact (ext_trans ok0);
+       try (intros; apply ext_emit; assumption); try (intros; apply ext_field; reflexivity); try (intros; exact I));
   try (intros; apply ext_emit; assumption);
   try (intros; apply ext_field; reflexivity);
   try (intros; exact I).
